@@ -1249,6 +1249,21 @@ mut("ok-dbg-assert-reads-more", "benign", [], "a debug_assert! that loads an ato
     }""", """        self.handle_count.set(handle_count + 1);
         debug_assert!(self.epoch.load(Ordering::Relaxed).is_pinned() || self.guard_count.get() == 0 || self.handle_count.get() >= 1);
     }""")])
+mut("ep-atomicepoch-new-drops-value", "break", ["C13", "C14"], "AtomicEpoch::new ignores its argument (always the default epoch)",
+    [ed(EPF, "        let data = AtomicUsize::new(epoch.data);", "        let _ = epoch;\n        let data = AtomicUsize::new(0);")], ["EBR-INIT", "WRAP-ATOMICS"])
+mut("ep-derived-eq-to-value-eq", "break", ["C13", "C14"], "PartialEq for Epoch compares value() (ignores the pin bit): pin's re-validation and try_advance's comparison change meaning",
+    [ed(EPF, "#[derive(Copy, Clone, Default, Debug, Eq, PartialEq)]", "#[derive(Copy, Clone, Default, Debug, Eq)]"),
+     ed(EPF, "impl Epoch {\n", "impl PartialEq for Epoch {\n    fn eq(&self, other: &Self) -> bool {\n        self.value() == other.value()\n    }\n}\n\nimpl Epoch {\n")], ["EPOCH-ARITH", "EBR-PIN-VALIDATE", "EBR-ADVANCE"])
+mut("list-delete-wrong-bit", "break", ["C18"], "Entry::delete marks bit 1 (fetch_or(2)): the traversal's `tag() == 1` test never sees a deleted entry",
+    [ed(LF, "        self.next.fetch_or(1, Release, guard);", "        self.next.fetch_or(2, Release, guard);")], ["EBR-LIST", "ORD-LIST"])
+mut("guard-defer-destroy-runs-now", "break", ["C18", "C17", "C13"], "Guard::defer_destroy frees the node at once instead of deferring it",
+    [ed(G, "        self.defer_unchecked(move || unsafe { ptr.drop() });", "        unsafe { ptr.drop() };")], ["CW-DEFER-WRAPPER", "WRAP-ATOMICS", "EBR-LIST", "EBR-QUEUE"])
+mut("queue-new-tail-not-sentinel", "break", ["C17"], "Queue::new leaves tail null (only head points to the sentinel)",
+    [ed(Q, "        q.tail.store(sentinel, Relaxed);\n", "")], ["EBR-QUEUE", "EBR-INIT"])
+mut("queue-new-sentinel-with-next", "break", ["C17"], "Queue::new's sentinel points to itself",
+    [ed(Q, "        q.head.store(sentinel, Relaxed);\n        q.tail.store(sentinel, Relaxed);\n", "        q.head.store(sentinel, Relaxed);\n        q.tail.store(sentinel, Relaxed);\n        unsafe { sentinel.deref() }.next.store(sentinel, Relaxed);\n")], ["EBR-QUEUE", "EBR-INIT"])
+mut("queue-drop-keeps-elements", "break", ["C15", "C04"], "Queue::drop frees the sentinel without popping the remaining elements (their bags are never run)",
+    [ed(Q, "            while self.try_pop(guard).is_some() {}\n", "")], ["EBR-QUEUE-DROP"])
 mut("wrap-atomicepoch-cas-always-ok", "break", ["C13", "C14"], "AtomicEpoch::compare_exchange reports Ok on failure",
     [ed(EPF, "Err(data) => Err(Epoch { data }),", "Err(data) => Ok(Epoch { data }),")], ["WRAP-ATOMICS"])
 mut("wrap-defer-none-runs-now", "break", ["C01", "C02", "C13"], "Option<&Guard>::defer_with_inner runs f at once when no guard is given",
